@@ -113,6 +113,67 @@ def build_driver_fragment(vf, src):
     vf.expected.append("validate_inputs_fragment")
 
 
+ELIDED_PRELUDE = """
+// ---- elided-lifetime check (first closure of TypeContext::validate): which lifetimes a type mentions is abstract (Type::lifetimes(), E11: carried as a Vec)
+pub uninterp spec fn lts_of(t: &Type) -> Seq<MaybeStatic<Lifetime>>;
+impl Type { #[verifier::external_body] pub fn lifetimes(&self) -> (r: Vec<MaybeStatic<Lifetime>>) ensures r@ == lts_of(self) { unimplemented!() } }
+#[verifier::external_body] pub fn __elided_msg() -> String { unimplemented!() }
+// oracle, from the rule "no elided lifetimes in return types": a lifetime mentioned by a returned type is elided iff it is not one of the method's named
+// lifetimes, i.e. the method's lifetime env has no node for it (elision.rs hands out indices >= num named lifetimes for anonymous ones)
+pub open spec fn lt_elided(l: MaybeStatic<Lifetime>, env: &LifetimeEnv) -> bool { l matches MaybeStatic::NonStatic(x) && x.0 >= env.nodes@.len() }
+pub open spec fn ty_elided_upto(t: &Type, env: &LifetimeEnv, n: int) -> bool { exists|j: int| 0 <= j < n && j < lts_of(t).len() && lt_elided(#[trigger] lts_of(t)[j], env) }
+pub open spec fn ty_elided(t: &Type, env: &LifetimeEnv) -> bool { ty_elided_upto(t, env, lts_of(t).len() as int) }
+"""
+ELIDED_CONTRACT = """        ensures /*CANARY*/
+            // the flag is raised (and exactly one diagnostic added) iff THIS returned type mentions an elided lifetime; otherwise nothing changes
+            *final(failed) == (*old(failed) || ty_elided(out_ty, &method.lifetime_env)),
+            ty_elided(out_ty, &method.lifetime_env) ==> final(errors).errors@.len() == old(errors).errors@.len() + 1,
+            !ty_elided(out_ty, &method.lifetime_env) ==> final(errors).errors@ == old(errors).errors@,
+            forall|k: int| 0 <= k < old(errors).errors@.len() ==> final(errors).errors@[k] == old(errors).errors@[k],
+"""
+ELIDED_INV = """                    invariant_except_break
+                        *failed == f0__, errors.errors@ == e0__,
+                        !ty_elided_upto(out_ty, &method.lifetime_env, it.index@ as int),
+                    invariant
+                        it.seq() == lts_of(out_ty),
+                    ensures
+                        *failed == (f0__ || ty_elided(out_ty, &method.lifetime_env)),
+                        ty_elided(out_ty, &method.lifetime_env) ==> errors.errors@ == e0__.push(errors.errors@.last()) && errors.errors@.len() == e0__.len() + 1,
+                        !ty_elided(out_ty, &method.lifetime_env) ==> errors.errors@ == e0__,"""
+
+
+def build_elided_closure(vf, src):
+    """E18: the first closure of TypeContext::validate (`method.output.with_contained_types(|out_ty| {..})`, captures `method`, `&mut errors`, `&mut failed`)
+    hoisted to a function with the captured locals as explicit parameters."""
+    it = src.item("impl TypeContext::validate", "fn")
+    cls = it.get("closures", [])
+    if len(cls) != 2:
+        raise Undecided("anchor-lost", f"TypeContext::validate: expected 2 closures (elided-lifetime check, return-type check), found {len(cls)}")
+    c0, c1 = cls[0]["start"], cls[0]["end"]
+    ctext = src.slice(c0, c1)
+    m = re.match(r"\|\s*(\w+)\s*\|\s*\{", ctext)
+    if not m or m.group(1) != "out_ty":
+        raise Undecided("anchor-lost", "TypeContext::validate: first closure is no longer `|out_ty| { .. }`")
+    before = src.slice(max(it["start"], c0 - 60), c0)
+    if not re.search(r"method\.output\.with_contained_types\(\s*$", before):
+        raise Undecided("anchor-lost", "TypeContext::validate: the elided-lifetime closure is no longer the argument of `method.output.with_contained_types(`")
+    frag = {"start": c0, "after_attrs": c0, "end": c1, "path": it["path"] + "#closure |out_ty| (elided-lifetime check)",
+            "loops": [l for l in it.get("loops", []) if c0 <= l["start"] < c1], "body_open": c0 + ctext.index("{")}
+    pc = Piece(src, frag)
+    pc.expect_loops(1)
+    pc.replace("E18", c0, frag["body_open"],
+               "pub fn elided_check_closure(errors: &mut ErrorStore, failed: &mut bool, method: &hir::Method, out_ty: &hir::Type)\n" + ELIDED_CONTRACT.replace("/*CANARY*/", CANARY),
+               "closure capturing `method`, `&mut errors`, `&mut failed` hoisted to a function with the captured locals as explicit parameters")
+    pc.sub("E18", r"\bfailed = true;", "*failed = true;", count=1, why="captured `failed` is an explicit &mut parameter")
+    pc.sub("E6", r'"Found elided lifetime in return type, please explicitly specify"\s*\.into\(\)', "__elided_msg()", count=1, why="error message text dropped")
+    pc.body_prefix("        let ghost f0__ = *failed; let ghost e0__ = errors.errors@;")
+    pc.loop_spec(0, ELIDED_INV, iter_name="it")
+    org = {"file": F, "item": frag["path"], "line": src.line_of(c0), "end_line": src.line_of(c1)}
+    vf.add(pc.render() + "\n", origin=org, edits=pc.log)
+    vf.functions.append({"path": frag["path"], "file": F, "line": src.line_of(c0), "end_line": src.line_of(c1), "engine": "verus", "mode": "verus (closure hoisted, E18)", "bound": "none"})
+    vf.expected.append("elided_check_closure")
+
+
 def build(tier):
     vf = VerusFile(NAME)
     src = Src(F)
@@ -159,17 +220,20 @@ def build(tier):
     vf.add_piece(p, expected="validate_ty_in_method")
     build_driver_fragment(vf, src)
     vf.add("}\n")
+    vf.add(ELIDED_PRELUDE)
+    build_elided_closure(vf, src)
     vf.add(vhelp.FOOTER)
     vf.expected += ["lemma_any_viol_next_inner", "__contains"]
     return vf
 
 
-CANARY_FUNCTIONS = ["validate_ty_in_method", "validate_inputs_fragment"]
+CANARY_FUNCTIONS = ["validate_ty_in_method", "validate_inputs_fragment", "elided_check_closure"]
 ASSUMPTIONS = [
     "E7w: both `for` loops desugared to index loops (index advanced at body start) because the bodies use `continue`; LinkedLifetimes::lifetimes_all() carried as the Vec of its items (abstract: link.all), def_to_use abstract with the precondition that the def lifetime has a use-site counterpart (linked_wf: what LinkedLifetimes::new's debug_assert states)",
     "E3: SmallVec -> Vec in BoundedLifetime / LifetimeEnv (verbatim otherwise); LifetimeEnv::get_bounds verbatim; fmt_lifetime and the error text abstract (E6)",
     "hir::Type re-declared (Opaque / Struct / other); link_lifetimes abstract functions of (path, type context)",
+    "E18: the elided-lifetime closure of TypeContext::validate hoisted to a function (captured method / &mut errors / &mut failed as parameters); Type::lifetimes() carried as the Vec of its items (E11)",
     "E15: of TypeContext::validate only the statement range between `if failed {..}` and the return-type check is under contract (which inputs are validated); hir::Method / ParamSelf / Param / SelfType re-declared with the fields read there; From<SelfType> for Type abstract (Opaque -> Opaque, Struct -> Struct)",
 ]
-UNVERIFIED = {"C04": ["the rest of TypeContext::validate (which types/methods are visited; elided-return check; return-type check through with_contained_types)"],
-              "C05": ["TypeContext::validate driver"], "C15": []}
+UNVERIFIED = {"C04": ["the rest of TypeContext::validate (which types/methods are visited; that the two closures are applied to every contained type is ReturnType::with_contained_types, unit used_lifetimes)"],
+              "C05": ["TypeContext::validate driver (iteration over all types and methods); the elided-lifetime closure is under contract, its application to ok AND err types is with_contained_types (unit used_lifetimes, linked by the anchor `method.output.with_contained_types(`)"], "C15": []}
